@@ -299,6 +299,11 @@ SUBS = {'rotation_pytree_containers': rotation_pytree_containers, 'rotation_pytr
 TIMEOUTS = {k: 900 for k in SUBS}
 
 
+# sub-spaces re-executed under other interpreter configurations (mc.core.CONFIGS): {configuration: {sub-space: stride}}
+# quick tier: every stride-th planned case, thorough tier: all planned cases
+CONFIG_PASSES = {'x64': {'transform': 6, 'rotation': 3, 'rotation_pytree': 2}, 'rbg': {'rotation': 3, 'rotation_pytree': 2, 'rotation_pytree_containers': 3}}
+
+
 def plan(ctx):
   th = ctx.tier == 'thorough'
   ctx.rule = ('transform: every length 2^0..2^14 x every explicit block size 2^1..2^8 + the default; full matrix for '
